@@ -704,6 +704,21 @@ void executeRun(const Desc& d, Obs& o) {
         if (c.verbose == 1) out->verbose(TestOutput::level_verbose); if (c.verbose == 2) out->verbose(TestOutput::level_veryVerbose); if (c.color) out->color();
         if (c.reverse) reg.reverseTests();
         size_t seedForShuffle = c.shuffle == 1 ? (size_t)c.shuffleSeed : (size_t)(unsigned)simTimeInMillis(); if (seedForShuffle == 0) seedForShuffle = 1;
+#if CPPUTEST_HAVE_EXCEPTIONS
+        if (d.pi("aborted_run")) {
+            // An earlier run of this registry object that an exception cut short while a group was open: nothing of it is recorded, and nothing of it
+            // may reach the runs that follow (each of them starts its first group and ends its last one).
+            fired("earlier_run_of_the_registry_left_by_an_exception");
+            struct Abort : public TestPlugin { Abort() : TestPlugin("AbortEarlierRun") {} void preTestAction(UtestShell&, TestResult&) CPPUTEST_OVERRIDE { throw 42; } } ab;
+            reg.installPlugin(&ab);
+            Obs scratch; RS.o = &scratch;
+            { TestResult ptr(*out); try { reg.runAllTests(ptr); } catch (int) {} }
+            reg.removePluginByName("AbortEarlierRun");
+            RS.o = &o; RS.currentTest = -1; RS.testsStartedSoFar = 0;
+            simIO().reset(); simClock().reset((uint64_t)d.pi("clock_start"), d.pi("clock_step", 1));
+            simRand().calls = 0; simRand().srands = 0;
+        }
+#endif
         int reps = c.repeat > 0 ? c.repeat : 1; size_t failedTests = 0, failedRuns = 0;
         for (int rp = 0; rp < reps; rp++) {
             if (c.runIgnored && lateRi > 0 && rp == lateRi) { reg.setRunIgnored(); fired("run_ignored_switched_on_between_repetitions"); }
